@@ -132,7 +132,7 @@ pub fn record_program(tw: &mut TraceWriter, rng: &mut Rng, subject: &str, big: b
 	// Correct floating-point code is exactly invariant under scaling of its inputs by a power of two (away from
 	// over/underflow): some programs run the real method on prices scaled by 2^e and log the unscaled values, so an
 	// absolute constant hidden in the code shows up although the trace itself stays inside the input band.
-	let exps: &[i32] = if cfg!(feature = "value_type_f32") { &[-30, 0, 20, -12] } else { &[0, -70, 0, 60, 0, -45, 100, 0] };
+	let exps: &[i32] = if cfg!(feature = "value_type_f32") { &[-40, 0, 20, -12] } else { &[0, -70, 0, 60, 0, -45, 100, 0] };
 	let e = exps[(round % exps.len() as u64) as usize];
 	let deg = degree(subject);
 	tw.ev(json!({"ev":"reset","scale_exp":e}));
